@@ -36,9 +36,20 @@ class CCompositionMCNP:
         i = 0
         while i < len(l_materialCompositionParameters):
             isotope = l_materialCompositionParameters[i]
-            if '=' in isotope:
-                # this is a keyword, skip it
-                i += 1
+            if '=' in isotope or isotope[:1].isalpha():
+                # this is a keyword (GAS, ESTEP, NLIB, ...): skip it and its
+                # value. MCNP treats the equals sign as a blank, so the entry
+                # may be spelled `key=value`, `key= value`, `key =value`,
+                # `key = value` or `key value`
+                tokens = l_materialCompositionParameters
+                if isotope.endswith('='):
+                    i += 2
+                elif '=' in isotope:
+                    i += 1
+                elif i + 1 < len(tokens) and tokens[i + 1] == '=':
+                    i += 3
+                else:
+                    i += 2
                 continue
             if "." in isotope:
                 isotope = isotope.split(".")[0]
